@@ -8,6 +8,12 @@
 namespace Fastor {
 
 
+// 1x1: the determinant is the element itself
+template<typename T, size_t M, size_t N, typename std::enable_if<M==1 && N==1, bool>::type=0>
+FASTOR_INLINE T _det(const T* FASTOR_RESTRICT a) {
+    return a[0];
+}
+
 #ifndef FASTOR_AVX_IMPL
 template<typename T, size_t M, size_t N, typename std::enable_if<M==2 && N==2, bool>::type=0>
 #else
